@@ -27,6 +27,10 @@ func init() {
 			"goroutine's treatment of malformed peer messages beyond closing the connection.",
 		Run: runC17,
 		Mutants: []Mutant{
+			{Name: "lock-released-around-withdraw", File: "internal/bgp/native/native.go",
+				Old: "\t\t\tif err := sendWithdraw(s.conn, wdr); err != nil {", New: "\t\t\tconn := s.conn\n\t\t\ts.mu.Unlock()\n\t\t\terr := sendWithdraw(conn, wdr)\n\t\t\ts.mu.Lock()\n\t\t\tif err != nil {", Expect: "ROUND-ATOMIC"},
+			{Name: "next-hop-from-configured-source", File: "internal/bgp/native/native.go",
+				Old: "\ts.nextHop = addr.IP\n", New: "\ts.nextHop = addr.IP\n\tif s.SourceAddress != nil {\n\t\ts.nextHop = s.SourceAddress\n\t}\n", Expect: "ROUND-ATOMIC"},
 			{Name: "set-without-broadcast", File: "internal/bgp/native/native.go",
 				Old: "\tstats.PendingPrefixes(s.peerName, len(s.new))\n\ts.cond.Broadcast()\n", New: "\tstats.PendingPrefixes(s.peerName, len(s.new))\n", Expect: "COND"},
 			{Name: "conn-stored-before-asn-test", File: "internal/bgp/native/native.go",
@@ -57,6 +61,7 @@ func init() {
 }
 
 func runC17(p *chk.Prog, r *chk.Report) {
+	c17RoundAtomic(p, r)
 	// what Set accepts the encoders can encode (VALIDATED, shared with C16): otherwise the session aborts and reconnects forever
 	c16Validated(p, r)
 	c17WholeWithdraw(p, r)
@@ -798,5 +803,58 @@ func c17WholeWithdraw(p *chk.Prog, r *chk.Report) {
 		x.Check("encodePrefixes:every-element", e.Pos(), ok, "", "encodePrefixes does not write every prefix of its list")
 	} else {
 		x.OK("encodePrefixes:every-element", 0, "encodePrefixes is expanded into its callers")
+	}
+}
+
+// c17RoundAtomic: one round of the sender - fold the pending set, send the difference, commit - runs under the session
+// lock without a gap, and the next hop announced is the 4-byte local address of the connection.
+func c17RoundAtomic(p *chk.Prog, r *chk.Report) {
+	x := r.Rule("ROUND-ATOMIC", "C locks + B value flow", "session.sendUpdates never releases s.mu itself (the deferred Unlock and cond.Wait are the only releases): the set it diffed against is the set it commits; in session.connect s.nextHop is assigned only the IP of the connection's local *net.TCPAddr", 2)
+	f := need(x, p, natPkg, "session", "sendUpdates")
+	if f != nil {
+		lock := p.LockField(natPkg, "session", "mu")
+		var bad *ast.CallExpr
+		ast.Inspect(f.Body, func(nd ast.Node) bool {
+			switch y := nd.(type) {
+			case *ast.DeferStmt:
+				return false
+			case *ast.FuncLit:
+				return false
+			case *ast.CallExpr:
+				if lk, op := f.LockOp(y); lock != nil && lk == lock && (op == "Unlock" || op == "RUnlock") {
+					bad = y
+				}
+			}
+			return true
+		})
+		pos := f.Pos()
+		if bad != nil {
+			pos = bad.Pos()
+		}
+		x.Check("sendUpdates:lock-held-for-the-whole-round", pos, bad == nil && lock != nil, "", "the sender releases the session lock in the middle of a round: a Set that lands in the gap is committed as `held by the peer` by the closing s.advertised, s.new = s.new, nil without ever being diffed or sent")
+	}
+	c := need(x, p, natPkg, "session", "connect")
+	if c != nil {
+		g := c.Graph()
+		n := 0
+		for _, st := range g.Find(func(nd ast.Node) bool {
+			as, ok := nd.(*ast.AssignStmt)
+			return ok && len(as.Lhs) == 1 && len(as.Rhs) == 1 && c.MatchNew("RECV.nextHop", as.Lhs[0]) != nil
+		}) {
+			n++
+			rhs := st.Node.(*ast.AssignStmt).Rhs[0]
+			ok := false
+			if b := c.MatchNew("A.IP", ast.Unparen(rhs)); b != nil {
+				if id, isId := ast.Unparen(b["A"]).(*ast.Ident); isId {
+					if def, _ := g.DefOf(id, g.FactSite(id)); def != nil {
+						if ta, isTA := ast.Unparen(def).(*ast.TypeAssertExpr); isTA && c.MatchNew("C.LocalAddr()", ast.Unparen(ta.X)) != nil {
+							ok = true
+						}
+					}
+				}
+			}
+			x.Check("connect:next-hop-is-the-local-address", st.Pos(), ok, "", "the next hop is taken from something other than the connection's local address (a configured address in 16-byte form, say): encodePathAttrs writes the NEXT_HOP attribute with length 4 followed by the bytes as they are, so every UPDATE is malformed")
+		}
+		x.Check("connect:next-hop-assigned", c.Pos(), n >= 1, "", "s.nextHop is not assigned in connect")
 	}
 }
